@@ -118,6 +118,8 @@ def obligations(pid, tier):
     sizes = [(1, 1), (2, 1), (1, 2), (2, 2)] if quick else [(1, 1), (2, 1), (1, 2), (2, 2), (3, 2), (2, 3)]
     for f, q in frames:
         for (n, m) in sizes:
+            if n + m >= 5 and q not in ("id", "yaw90"):
+                continue  # five-object scenes: ego frame and the axis-aligned map pose only (run time)
             for policy in (["default", "allow_any"] if n + m <= 3 else ["default"]):
                 for ck in ("xy", "dist"):
                     if ck == "dist" and (n + m > 3 or (quick and (f == "map" or n + m > 2))):
@@ -156,7 +158,7 @@ def meta(pid):
                             "and map frame (ego yaw atan(4/3), symbolic translation); critical filter x/y box or distance "
                             "ring with symbolic per-label bounds, or x/y box plus a critical uuid list; symbolic pass/fail thresholds; "
                             "policies default/allow_any; detection and false-positive-validation task",
-                   "thorough": "up to 3x2 / 2x3; four ego poses"},
+                   "thorough": "four ego poses; 3x2 / 2x3 scenes in the ego frame and under the axis-aligned map pose"},
         "outside": ["objects of different size or orientation (plane distance then differs from centre distance; C06 covers "
                     "the score itself)", "more objects than the bound", "sequences of frames (C13)"],
         "stand_ins": ["numpy proxy", "pyquaternion -> Rot (exact)", "shapely -> ConvexPolygon", "lazy matching wrappers",
